@@ -205,12 +205,18 @@ class Source:
         m = re.search(r"^[ \t]*(pub(\s*\([^)]*\))?\s+)?(struct|enum)\s+%s\b" % re.escape(name), self.bl, re.M)
         if not m:
             raise AnchorLost("type %s not found in %s" % (name, self.relpath))
-        # tuple struct / unit struct end with ';' before any '{'
-        semi = self.bl.find(";", m.end())
-        brace = self.bl.find("{", m.end())
-        if brace < 0 or (0 <= semi < brace):
-            return m.start(), semi + 1
-        return m.start(), match_brace(self.bl, brace) + 1
+        depth = 0
+        for k in range(m.end(), len(self.bl)):
+            ch = self.bl[k]
+            if ch == "{" and depth == 0:
+                return m.start(), match_brace(self.bl, k) + 1
+            if ch in "([":
+                depth += 1
+            elif ch in ")]":
+                depth -= 1
+            elif ch == ";" and depth == 0:
+                return m.start(), k + 1
+        raise AnchorLost("type %s unterminated" % name)
 
     def find_const(self, name):
         m = re.search(r"^[ \t]*(pub(\s*\([^)]*\))?\s+)?(const|static)\s+%s\s*:" % re.escape(name), self.bl, re.M)
@@ -302,6 +308,72 @@ def find_loops(body_bl):
     return res
 
 
+def rw_selfas(text, name, ty):
+    """alpha-rename the receiver: `mut self`/`self` parameter -> `mut name: Ty`/`name: Ty`; self -> name; Self -> Ty."""
+    bl = blank_noncode(text)
+    out = []
+    last = 0
+    first = True
+    for m in re.finditer(r"\b(mut\s+self|self|Self)\b", bl):
+        out.append(text[last:m.start()])
+        tok = m.group(1)
+        if tok == "Self":
+            out.append(ty)
+        elif first:
+            # the receiver parameter itself
+            out.append(("mut " if tok.startswith("mut") else "") + name + ": " + ty)
+        else:
+            out.append(name)
+        if tok != "Self":
+            first = False
+        last = m.end()
+    out.append(text[last:])
+    return "".join(out)
+
+
+def rw_untuple(text):
+    """closure parameter that is a tuple pattern: `|(a, b)| BODY` (BODY = rest of the enclosing call's
+    argument) -> `|vx_p| { let (a, b) = vx_p; BODY }`.  Pure desugaring."""
+    k = 0
+    while True:
+        bl = blank_noncode(text)
+        m = re.search(r"\|(\(([^()|]*)\))\|", bl)
+        if not m:
+            return text
+        pat = text[m.start(1):m.end(1)]
+        # body extends to the `)` closing the enclosing call
+        depth = 0
+        end = None
+        for j in range(m.end(), len(bl)):
+            ch = bl[j]
+            if ch in "([{":
+                depth += 1
+            elif ch in ")]}":
+                if depth == 0:
+                    end = j
+                    break
+                depth -= 1
+        if end is None:
+            raise AnchorLost("untuple: closure body end not found")
+        body = text[m.end():end]
+        text = text[:m.start()] + "|vx_p%d| { let %s = vx_p%d; %s }" % (k, pat, k, body.strip()) + text[end:]
+        k += 1
+
+
+def apply_rewrites(text, opts):
+    applied = []
+    if opts.get("selfas"):
+        name, ty = opts["selfas"].split(":", 1)
+        text = rw_selfas(text, name, ty)
+        applied.append("receiver alpha-renamed: self -> %s: %s (Verus has no `mut self`)" % (name, ty))
+    if opts.get("untuple"):
+        t2 = rw_untuple(text)
+        if t2 != text:
+            applied.append("closure tuple-pattern parameters desugared: |(a, b)| e -> |p| { let (a, b) = p; e }")
+        text = t2
+    return text, applied
+
+
 def parse_opts(words):
     opts = {}
     for w in words:
@@ -315,6 +387,10 @@ def parse_opts(words):
             opts["ret"] = w[4:]
         elif w.startswith("vis="):
             opts["vis"] = w[4:]
+        elif w.startswith("selfas="):
+            opts["selfas"] = w[7:]
+        elif w == "untuple":
+            opts["untuple"] = True
         else:
             raise ValueError("bad option " + w)
     return opts
@@ -387,9 +463,20 @@ def generate(template_path, twin=False):
         start, ob, cb = s.find_fn(item, opts.get("nth", 0), opts.get("impl_re"))
         sig = s.text[start:ob]
         body = s.text[ob:cb + 1]
+        orig_text = sig + body
+        rewrites = []
+        if kind == "prove" and (opts.get("selfas") or opts.get("untuple")):
+            whole, rewrites = apply_rewrites(orig_text, opts)
+            wbl = blank_noncode(whole)
+            wob = first_open_brace(wbl, wbl.index("fn "))
+            sig, body = whole[:wob], whole[wob:]
+        elif kind == "stub" and opts.get("selfas"):
+            sig, rewrites = apply_rewrites(sig, opts)
         line_no = s.text.count("\n", 0, start) + 1
         contract = "\n".join("\n".join(b["text"]) for b in blocks if b["kind"] == "contract")
-        sig_named, had_ret = name_return(sig.rstrip(), opts.get("ret", "ret"))
+        # restricted visibility has no meaning in the single-file crate: pub(crate|super|in ..) -> pub
+        sig_v = re.sub(r"^pub\s*\([^)]*\)", "pub", sig.rstrip())
+        sig_named, had_ret = name_return(sig_v, opts.get("ret", "ret"))
         if "rename" in opts:
             fname = item.split("::")[-1]
             sig_named = re.sub(r"\bfn\s+%s\b" % re.escape(fname), lambda m: "fn " + wrap("") + opts["rename"] + wrap(""), sig_named, count=1)
@@ -409,7 +496,7 @@ def generate(template_path, twin=False):
             out.append(text)
             continue
         # prove: insertions into body
-        body_bl = s.bl[ob:cb + 1]
+        body_bl = blank_noncode(body)
         inserts = []  # (offset, text)
         loops = None
         for b in blocks:
@@ -423,11 +510,22 @@ def generate(template_path, twin=False):
                 if k >= len(loops):
                     raise AnchorLost("%s: loop #%d not found (have %d)" % (item, k, len(loops)))
                 inserts.append((loops[k], "\n" + txt + "\n"))
-            elif b["kind"] in ("after", "before"):
-                ms = list(re.finditer(b["arg"], body))
+            elif b["kind"] in ("after", "before", "after?", "before?"):
+                # anchors are matched on the body with comments and string contents blanked
+                optional = b["kind"].endswith("?")
+                arg = b["arg"]
+                presence = None
+                if optional and " ;; " in arg:
+                    arg, presence = arg.split(" ;; ", 1)
+                ms = list(re.finditer(arg, body_bl))
                 if len(ms) != 1:
-                    raise AnchorLost("%s: anchor /%s/ matched %d times" % (item, b["arg"], len(ms)))
-                pos = ms[0].end() if b["kind"] == "after" else ms[0].start()
+                    if optional and len(ms) == 0 and not (presence and re.search(presence, body_bl)):
+                        # the anchored construct is absent altogether: nothing is inserted, and the
+                        # obligations that needed the inserted lemma will fail by themselves
+                        report.setdefault("skipped_optional_anchors", []).append("%s: /%s/" % (item, arg))
+                        continue
+                    raise AnchorLost("%s: anchor /%s/ matched %d times" % (item, arg, len(ms)))
+                pos = ms[0].end() if b["kind"].startswith("after") else ms[0].start()
                 inserts.append((pos, "\n" + txt + "\n"))
             else:
                 raise ValueError("unknown block " + b["kind"])
@@ -446,13 +544,15 @@ def generate(template_path, twin=False):
         out.append(text)
         out.append("//@@end")
         report["items"].append({"file": rel, "item": item, "role": "prove", "line": line_no,
-                                "body_sha256": hashlib.sha256((sig + body).encode()).hexdigest(),
+                                "body_sha256": hashlib.sha256(orig_text.encode()).hexdigest(),
                                 "loc": body.count("\n") + 1, "rename": opts.get("rename"),
+                                "rewrites": rewrites, "opts": {k: opts[k] for k in ("selfas", "untuple") if k in opts},
                                 "contract": contract.strip()})
     gen = "\n".join(out)
     report["dropped"] = [
         "doc comments and attributes on extracted items and type definitions",
         "the enclosing impl header's generics/where-clauses (the template supplies the impl block)",
+        "restricted visibility on function signatures (pub(crate), pub(super)) is widened to pub",
         "return types are named: `-> T` becomes `-> (ret: T)` (needed to state postconditions)",
         "pub(crate)/pub(super)/private widened to pub on extracted type definitions, their fields and constants (single-file crate; no runtime meaning)",
         "foreign type definitions not extracted with //@struct are opaque declarations in the unit prelude",
@@ -495,7 +595,9 @@ def verify_fidelity(gen_text, report):
             except AnchorLost:
                 break
             orig = s.text[start:cb + 1]
-            a = "".join(orig.split())
+            if it.get("opts"):
+                orig, _ = apply_rewrites(orig, it["opts"])
+            a = re.sub(r"^pub\([^)]*\)", "pub", "".join(orig.split()))
             b = "".join(stripped.split())
             if it.get("rename"):
                 b = b.replace("fn" + it["rename"], "fn" + item.split("::")[-1], 1)
